@@ -54,7 +54,7 @@ def _lp_init(tier, lps, nodes, threads):
         h["name"] = h["name"].replace("C14.", "C05.")
         h["desc"] = "lp_init: the generator context is obtained from rs_malloc (the LP's own rollbackable allocator) after the allocator is initialised, and seeded with the global LP id - so a checkpoint restore rewinds the random stream (with C09: RandomU64 is a function of that state only)"
     return hs
-HARNESSES = HARNESSES + _lp_init("quick", 8, 3, 3) + _lp_init("thorough", 16, 4, 4)
+HARNESSES = HARNESSES + _lp_init("quick", 9, 2, 5) + _lp_init("thorough", 16, 4, 4)
 
 # ---- multi-arena checkpoint take / restore (multi.c with the real ckpt.c and buddy.c, reduced geometry)
 _sp12 = _ilu.spec_from_file_location("spec_C12_for_C05", _os.path.join(_os.path.dirname(__file__), "C12.py"))
